@@ -879,3 +879,92 @@ def enc_append(ctx, flavours):
             ops = sorted({op for f, op in M.muts(mq)})
             out.append(Obl('ENC-push', mq, F.bodies[mq]['span'], 'insertion primitive used by connect appends (Vec::push only)', ops == ['push'], 'list operations: ' + ','.join(ops)))
     return out
+
+
+def adj_prim(ctx, flavours):
+    """ADJ-PRIM: the read primitives of Adjacent are exactly: get_X(i) = list.get(i) as (&e.0,&e.1); len_X = list.len();
+    find_X(k) = the first entry whose peer key equals k, as (&e.0,&e.1)"""
+    F = ctx.F
+    out = []
+    for fl in flavours:
+        M = model(ctx, fl)
+        seen = {'get': 0, 'len': 0, 'find': 0}
+        for q, m in sorted(M.methods.items()):
+            b = F.bodies[q]
+            ops = m['ops']
+            if M.muts(q) or not ops or b['argc'] < 1:
+                continue
+            fields = {f for f, op, bi in ops}
+            opn = sorted(op for f, op, bi in ops)
+            pv, cfg = F.prov(b), F.cfg(b)
+            rt = deep_unwrap(pv.of_local(0))
+            if len(fields) != 1:
+                continue   # composite views (get_adjacent, sizeof) have their own rules
+            f = next(iter(fields))
+            FIELD = ('f', P1_, f)
+            if opn == ['get'] and b['argc'] == 2:
+                seen['get'] += 1
+                why = []
+                gbi = [bi for _, op, bi in ops if op == 'get'][0]
+                gt = b['blocks'][gbi]['term']
+                if deep_unwrap(pv.of_operand(gt['args'][1])) != P2_:
+                    why.append('reads index %s, not the index argument' % pretty(pv.of_operand(gt['args'][1])))
+                # result: map(get(..), |e| (&e.0, &e.1)) or match
+                clos = [z for c in term_calls(rt) for z in c[2] if isinstance(z, tuple) and z and z[0] == 'aggr' and z[1].startswith('closure:')]
+                if len(clos) == 1:
+                    cb = F.bodies.get(clos[0][1][len('closure:'):])
+                    ct = deep_unwrap(F.prov(cb).of_local(0)) if cb else None
+                    if ct != ('aggr', 'tuple', (('f', P2_, '0'), ('f', P2_, '1'))):
+                        why.append('entry is presented as %s, expected (&e.0, &e.1)' % pretty(ct))
+                elif not (isinstance(rt, tuple) and rt[0] == 'call' and rt[1].endswith(']::get')):
+                    ent = None
+                    for x in (rt[1] if isinstance(rt, tuple) and rt[0] == 'join' else [rt]):
+                        if isinstance(x, tuple) and x[0] == 'aggr' and x[1].endswith('Option::Some'):
+                            ent = deep_unwrap(x[2][0])
+                    g = ('call', callee_name(gt), tuple(pv.of_operand(a) for a in gt['args']), gbi)
+                    exp = ('aggr', 'tuple', (('f', deep_unwrap(g), '0'), ('f', deep_unwrap(g), '1')))
+                    if ent != exp:
+                        why.append('entry is presented as %s' % pretty(ent))
+                out.append(Obl('ADJ-PRIM', q, b['span'], 'indexed read of list %s returns the entry at the given index' % M.role(f), not why, '; '.join(why) if why else 'ok'))
+            elif opn == ['len'] and b['argc'] == 1:
+                seen['len'] += 1
+                ok = isinstance(rt, tuple) and rt[0] == 'call' and rt[1].endswith('Vec::len') and deep_unwrap(rt[2][0]) == FIELD
+                out.append(Obl('ADJ-PRIM', q, b['span'], 'length of list %s' % M.role(f), ok, 'returns ' + pretty(rt)))
+            elif opn == ['iter'] and b['argc'] == 2 and F.types[b['locals'][0]]['s'].startswith('std::option::Option'):
+                seen['find'] += 1
+                why = []
+                nx = [(bi, t) for bi, t in calls_in(b) if t['callee'] == 'std::iter::Iterator::next']
+                pos = [(bi, t) for bi, t in calls_in(b) if callee_name(t).split('::')[-1] in ('find', 'position', 'find_map')]
+                if len(nx) == 1:
+                    nbi, nt = nx[0]
+                    src = pv.of_operand(nt['args'][0])
+                    if any(c[1].startswith('std::iter::Iterator::') and c[1].split('::')[-1] in ('rev', 'skip', 'step_by', 'take') for c in term_calls(src)):
+                        why.append('scan is not a plain forward scan: ' + pretty(src))
+                    ENT = deep_unwrap(proj_field(('v', ('call', callee_name(nt), tuple(pv.of_operand(a) for a in nt['args']), nbi), 'Some#1'), '0'))
+                    okeq = False
+                    for ebi, et in calls_in(b, lambda t: t['callee'] == 'std::cmp::PartialEq::eq'):
+                        a0, a1 = [deep_unwrap(pv.of_operand(a)) for a in et['args'][:2]]
+                        for x, y in ((a0, a1), (a1, a0)):
+                            if y == P2_:
+                                up = [c for c in term_calls(x) if c[1].endswith('::WeakNode::upgrade')] if isinstance(x, tuple) else []
+                                if (up and x == key_of(up[0]) and deep_unwrap(up[0][2][0]) == ('f', ENT, '0')) or x == key_of(('f', ENT, '0')):
+                                    te, fe = cfg.bool_edges(et['dst']['l'], et['target'])
+                                    somes = [bi for bi, bb in enumerate(b['blocks']) if not bb['cleanup'] for s in bb['stmts'] if s['k'] == 'assign' and s['dst']['l'] == 0 and s['rv']['k'] == 'aggr' and s['rv']['ak'].endswith('Option::Some')]
+                                    if te and somes and all(cfg.edge_dominates(te[0], te[1], sb) for sb in somes):
+                                        okeq = True
+                    if not okeq:
+                        why.append('Some(..) is not confined to key(peer of entry) == key argument')
+                    ent = None
+                    for x in (rt[1] if isinstance(rt, tuple) and rt[0] == 'join' else [rt]):
+                        if isinstance(x, tuple) and x[0] == 'aggr' and x[1].endswith('Option::Some'):
+                            ent = deep_unwrap(x[2][0])
+                    if ent != ('aggr', 'tuple', (('f', ENT, '0'), ('f', ENT, '1'))):
+                        why.append('returns %s, expected the matching entry (&e.0, &e.1)' % pretty(ent))
+                elif not pos:
+                    why.append('no scan of the list')
+                out.append(Obl('ADJ-PRIM', q, b['span'], 'lookup in list %s returns the first entry whose peer key matches' % M.role(f), not why, '; '.join(why) if why else 'ok'))
+        for k, n in seen.items():
+            need = 2 if k != 'get' or fl in DIRECTED else 0
+            if n < need:
+                out.append(Obl('ADJ-PRIM', M.path, '-', '%s primitives for both lists' % k, False, 'found %d' % n))
+    return out
